@@ -140,6 +140,9 @@ def step (page : Nat) (ws : List String) : Nat × String :=
     | _, _, _ => (page, "bad-op")
   -- /proc/version against a copy of it (both ways), and against an empty file (both ways): file_equals_sized_iff_bytes
   | ["feqproc"] => (page, "eq=1100 fds=1")
+  -- the small creation / removal wrappers (create_directory, _like, symlink, directory_symlink, hard_link, remove): statuses
+  -- SUCCESS 0 / ERROR 1 / NOT_FOUND 3 / EXISTS 4 / BAD_ARG 5 and what lstat shows afterwards (d, l, h, - = gone)
+  | ["fsops"] => (page, "fsops=0d4530d3-50l40l0h30-30-1d0- fds=1")
   -- a sysfs attribute against its copy: identical bytes, so the property says equal (the implementation trusts the sizes: known finding)
   | ["feqsys"] => (page, "eq=11 fds=1")
   | ["feqino", da, ia, db, ib, same] =>
